@@ -3,7 +3,7 @@
 #   patch applies, builds, the repository's suite still passes with it (known-flaky tests ignored),
 #   the demonstration fails with it and passes without it; then runs the property's quick check against that worktree
 #   (VERIF_REPO) with the patch applied and records everything in the seed's meta.json under "audit".
-# usage: tools/audit_seeds.sh [seed-dir-names...]   (default: all)
+# usage: tools/audit_seeds.sh [seed-dir-names...]   (default: all); AUDIT_CHECK_ONLY=1 repeats only the check part
 set -u
 VHOME=$(cd "$(dirname "$0")/.." && pwd)   # checks are taken from the tree this script lives in; results go to /verif/seeded
 export GOFLAGS=-mod=mod GOPROXY=off GOSUMDB=off
@@ -21,7 +21,7 @@ for s in $seeds; do
   if ! git apply $d/patch.diff 2>/dev/null; then applies=false; fi
   if $applies; then
     go build ./... >/dev/null 2>&1 || builds=false
-    if $builds; then
+    if $builds && [ -z "${AUDIT_CHECK_ONLY:-}" ]; then
       fails=$(go test -vet=off -count=1 -timeout 20m ./... 2>&1 | grep -E "^--- FAIL" | grep -vE "$flaky" | sort -u | head -5 | tr '\n' ';')
       suite=${fails:-pass}
       cp $d/demo_test.go $pkg/zz_seed_demo_test.go
@@ -47,6 +47,14 @@ d,pkg,applies,builds,suite,dw,dwo,verdict,rule=sys.argv[1:]
 m=json.load(open(d+'/meta.json'))
 head=subprocess.check_output(['git','-C','/repo','log','--format=%h','-1']).decode().strip()
 m['demo_pkg']=pkg
+if suite=='not run' and 'audit' in m:
+    # check-only pass (AUDIT_CHECK_ONLY=1): the suite and demonstration results of the last full audit are kept
+    a=m['audit']
+    a.update({'repo_head':head,'patch_applies':applies=='true','builds':builds=='true','check_quick_verdict':verdict,'first_violation':rule})
+    m['detected_by']=('./check %s quick: %s'%(m['property'],rule)) if verdict=='DETECTED' else verdict
+    json.dump(m,open(d+'/meta.json','w'),indent=1)
+    print('%-8s applies=%s builds=%s (check only) check=%s %s'%(d.split('/')[-1],applies,builds,verdict,rule[:90]))
+    sys.exit(0)
 m['audit']={'repo_head':head,'patch_applies':applies=='true','builds':builds=='true',
   'existing_suite_with_change (go test -vet=off -count=1 ./..., known-flaky tests ignored)':suite,
   'demo_exit_with_change':int(dw),'demo_exit_without_change':int(dwo),
